@@ -693,10 +693,11 @@ impl FlexScen {
         if let Some(d) = paging_audit("reverse_proposals", &|c, l| self.q_rev_props(c.and_then(|x| x.parse().ok()), l)) {
             pagediff.push(d);
         }
-        if let Some(d) = paging_audit("list_voters", &|c, l| self.q_list_voters(c, l)) {
+        let pool_s: Vec<String> = self.pool.iter().map(|a| a.to_string()).collect();
+        if let Some(d) = paging_audit_cursors("list_voters", &|c, l| self.q_list_voters(c, l), &pool_s) {
             pagediff.push(d);
         }
-        if let Some(d) = paging_audit("list_members", &|c, l| self.q_list_members(c, l)) {
+        if let Some(d) = paging_audit_cursors("list_members", &|c, l| self.q_list_members(c, l), &pool_s) {
             pagediff.push(d);
         }
         nvotes.sort_by(|a, b| b.0.cmp(&a.0).then(a.1.cmp(&b.1)));
@@ -1590,9 +1591,19 @@ impl FlexScen {
             } else {
                 any_id(rng)
             };
+            // with an executor configured, also let addresses that voted on this proposal try (they are not
+            // thereby authorised)
+            let voters: Vec<Addr> = self
+                .qs::<VoteListResponse>(&self.flex, &FlexQuery::ListVotes { proposal_id: id, start_after: None, limit: Some(30) })
+                .map(|r| r.votes.into_iter().map(|v| Addr::unchecked(v.voter)).collect())
+                .unwrap_or_default();
             let snd = match cfg.as_ref().and_then(|c| c.executor.clone()) {
-                Some(Executor::Only(a)) if rng.chance(4, 5) => a,
-                Some(Executor::Member) => member_or_any(rng, 85),
+                Some(Executor::Only(a)) => {
+                    if rng.chance(1, 2) || voters.is_empty() { if rng.chance(4, 5) { a } else { rng.pick(&self.pool).clone() } } else { rng.pick(&voters).clone() }
+                }
+                Some(Executor::Member) => {
+                    if rng.chance(1, 4) && !voters.is_empty() { rng.pick(&voters).clone() } else { member_or_any(rng, 85) }
+                }
                 _ => rng.pick(&self.pool).clone(),
             };
             return format!("exec {snd} execute id={id}");
